@@ -179,8 +179,18 @@ class Gen:
     rr = svcreal.RealRunner('ram')
     out = []
     self.shadow_trials = {}
+    # when several owners / study names are in play, create (most of) the studies up front so that
+    # cross-study and cross-owner interference can show
+    forced = []
+    if len(self.owners) * len(self.sids) > 1:
+      for o in self.owners:
+        for sd in self.sids:
+          if self.rng.random() < 0.9:
+            forced.append({'op': 'createStudy', 'owner': o, 'display': sd, 'spec': self.rng.randrange(0, 3),
+                           'state': self.rng.choice(['ACTIVE', 'ACTIVE', 'STATE_UNSPECIFIED']), 'md': []})
+    n = max(n, len(forced) + 2)
     for i in range(n):
-      rq = self.one(first=(i == 0))
+      rq = forced[i] if i < len(forced) else self.one(first=(i == 0))
       out.append(rq)
       rr.step(rq)
       snap = rr.snapshot()
